@@ -195,6 +195,19 @@ def run(chk):
                      "p_matrix": p.tolist(), "binarize": binarize, "level": level, "two_d_input": two_d,
                      "edges": None if out is None else [list(map(str, e)) for e in out]})
         chk.case(key=tg_c[-1], nontrivial=bool((g != "").any()), sample=tg_d[-1] if N <= 2 and T1 == 1 and len(chk.samples) < 2 and (g != "").any() else None)
+        if out is not None and cons and fail is None and rng.random() < 0.15:
+            # call history: the same result dict / arrays, numbers changed IN PLACE, converted again
+            val += 0.5
+            p *= 0.5
+            G3 = pcmci_to_networkx(res, binarize=binarize, p_value=level)
+            out3 = [edge_tuple(u, v, d) for u, v, d in G3.edges(data=True)]
+            exp3 = expected_graph(g, val, p, binarize, level)
+            chk.count("pcmci.reconverted_after_in_place_edit")
+            if sorted(out3, key=repr) != sorted(exp3, key=repr):
+                chk.violation("counterexample", "pcmci_to_networkx on the same arrays after an in-place change of val_matrix / p_matrix does "
+                              f"not carry the current numbers: {sorted(out3, key=repr)} vs {sorted(exp3, key=repr)}",
+                              {"function": "pcmci_to_networkx", "history": "convert, val_matrix += 0.5 and p_matrix *= 0.5 in place, convert again",
+                               "graph": g.tolist(), "val_matrix_now": val.tolist(), "p_matrix_now": p.tolist(), "binarize": binarize, "level": level})
         chk.count("pcmci." + stream)
         chk.count("pcmci.consistent" if cons else "pcmci.inconsistent_or_malformed")
     lib.correspond(chk, "pcmci_to_networkx_vs_model", IMPORTS, TG_T, "check_to_graph_case", tg_c, tg_p, lambda i: tg_d[i], shard=400, jobs=12)
@@ -257,6 +270,23 @@ def run(chk):
             back = sorted((u, v, d["lag"], d["val"], d["p_value"], d["link_type"]) for u, v, d in G2.edges(data=True))
             if back != sorted(e[:6] for e in edges):
                 fail = (f"graph -> PCMCI -> graph returns {back} instead of the original links {sorted(e[:6] for e in edges)}")
+            if fail is None and G.number_of_edges() and rng.random() < 0.15:
+                # call history: edit one edge's numbers in place on the same graph object, convert again
+                uu, vv, kk, dd = list(G.edges(keys=True, data=True))[int(rng.integers(G.number_of_edges()))]
+                fld = "val" if "val" in dd else "cmi"
+                if dd.get("link_type", "directed") in ("directed", "possible_directed"):
+                    dd[fld] = dd[fld] + 0.25
+                    dd["p_value"] = dd["p_value"] * 0.5
+                    res4 = networkx_to_pcmci(G)
+                    i4, j4, l4 = idx[repr(uu)], idx[repr(vv)], dd["lag"]
+                    chk.count("graph.reconverted_after_in_place_edit")
+                    if res4["val_matrix"][i4, j4, l4] != dd[fld] or res4["p_matrix"][i4, j4, l4] != dd["p_value"]:
+                        chk.violation("counterexample", f"networkx_to_pcmci on the same graph object after an in-place change of one edge's numbers "
+                                      f"writes {res4['val_matrix'][i4, j4, l4]}, {res4['p_matrix'][i4, j4, l4]} at [{i4},{j4},{l4}] instead of "
+                                      f"{dd[fld]}, {dd['p_value']}", {"function": "networkx_to_pcmci", "history": "convert, edit one edge in place, convert again",
+                                                                     "edge": [i4, j4, l4], "nodes": [repr(x) for x in nodes]})
+                    dd[fld] = dd[fld] - 0.25
+                    dd["p_value"] = dd["p_value"] * 2
         except ValueError as e:
             fail = f"ValueError on a well-formed graph: {e}"
             g, val, p = np.full((n, n, 1), "??"), np.zeros((n, n, 1)), np.ones((n, n, 1))
